@@ -2,8 +2,11 @@
 configurable `run_operation` answer) and evaluates the node's fee rule (specs/C24_fee_rule.py) on the result.
 
 A case = (source key kind, batch of content templates, counter size class, amount size class, node constants,
-          mode fill|autofill, explicit arguments, simulated consumptions).
-requires: the fee is chosen by the client (all fee fields '0' on entry, no `fee=` argument).
+          mode fill|autofill, explicit arguments, simulated consumptions
+          [, prefill: fields the caller set before the call: source / gas_limit / storage_limit]
+          [, mode 'a+b': the call b is made on the RESULT of the call a (refill; the second simulation may answer differently)]).
+requires: the fee is chosen by the client: no `fee=` argument, and for fill() every fee field is '0' on entry (fill keeps a fee it
+          finds; autofill always recomputes it, so a group that was filled/autofilled before qualifies for autofill).
 ensures : 1000 * sum(fee) >= 100000 + 1000 * size(signed op) + m * sum(gas_limit),   m = 100 (the node default), or the
           caller's `minimal_nanotez_per_gas_unit` when it is passed to fill (the caller states the node's setting);
           fill / autofill return (no exception) for these well-formed inputs.
@@ -86,20 +89,31 @@ def template(kind, src_kind, amount):
     raise ValueError(kind)
 
 
+# fields set by the caller before fill/autofill (the builders leave them '' / '0'); gas limits larger AND smaller than the defaults
+PREFILL = ('source', 'gas', 'gas+storage', 'source+gas')
+PRE_GAS = [900000, 12345, 1040000]
+PRE_STORAGE = [5000, 1, 60000]
+RESIM_EXTRA_MILLIGAS = 50_000_000          # the second simulation of a refilled group consumes 50000 gas more per content
+
+
 class FeeSimState(N.SimState):
     """simulated node whose run_operation answers with chosen consumptions (per content, rotating through the grids)"""
 
-    def __init__(self, pkh, counter, gas_i, sto_i, constants, gas_list=None):
+    def __init__(self, pkh, counter, gas_i, sto_i, constants, gas_list=None, resim=None):
         super().__init__(pkh, counter, noise=False)
         self.gas_i, self.sto_i, self.constants = gas_i, sto_i, constants
         self.gas_list = gas_list            # explicit consumed_milligas per content (cycled); overrides the grid
+        self.resim = resim                  # 'higher': every simulation after the first one reports more gas (state changed in between)
         self.simulated = 0
 
     def run_operation(self, body):
         out = super().run_operation(body)         # strict counter check of the head context
+        again = self.simulated > 0 and self.resim == 'higher'
         self.simulated += 1
         for j, c in enumerate(out['contents']):
             mg = self.gas_list[j % len(self.gas_list)] if self.gas_list else GAS_GRID[(self.gas_i + j) % len(GAS_GRID)]
+            if again:
+                mg += RESIM_EXTRA_MILLIGAS
             psd, alloc = STORAGE_GRID[(self.sto_i + j) % len(STORAGE_GRID)]
             res = {'status': 'applied', 'consumed_milligas': str(mg)}
             if psd:
@@ -116,11 +130,11 @@ class FeeSimState(N.SimState):
         return out
 
 
-def make_client(src_kind, counter, gas_i, sto_i, const_name, gas_list=None):
+def make_client(src_kind, counter, gas_i, sto_i, const_name, gas_list=None, resim=None):
     from pytezos.context.impl import ExecutionContext
     from pytezos.rpc.shell import ShellQuery
     k = key(src_kind)
-    st = FeeSimState(k.public_key_hash(), counter, gas_i, sto_i, CONSTANTS[const_name], gas_list)
+    st = FeeSimState(k.public_key_hash(), counter, gas_i, sto_i, CONSTANTS[const_name], gas_list, resim)
     node = N.make_node(st, [])
     real_get = node.get
 
@@ -134,26 +148,45 @@ def make_client(src_kind, counter, gas_i, sto_i, const_name, gas_list=None):
 
 
 def run_case(case):
-    """case: dict(src, kinds, counter_class, amount_class, const, mode, args, gas_i, sto_i).  Returns None (holds) or
-    dict(clause, detail, wclass, numbers…)."""
+    """case: dict(src, kinds, counter_class, amount_class, const, mode, args, gas_i, sto_i[, prefill][, resim]).  Returns None (holds) or
+    dict(clause, detail, wclass, numbers…).  mode 'a+b' = call a, then call b on its result; the rule is evaluated after every call."""
     from pytezos.operation.group import OperationGroup
     src, kinds = case['src'], case['kinds']
     amount = AMOUNT_CLASS[case['amount_class']]
     ctx, st = make_client(src, COUNTER_CLASS[case['counter_class']], case.get('gas_i', 0), case.get('sto_i', 0), case['const'],
-                          case.get('gas_list'))
+                          case.get('gas_list'), case.get('resim'))
     contents = [template(k, src, amount) for k in kinds]
+    pre = (case.get('prefill') or '').split('+') if case.get('prefill') else []
+    for j, c in enumerate(contents):
+        if 'source' in pre:
+            c['source'] = st.pkh
+        if 'gas' in pre:
+            c['gas_limit'] = str(PRE_GAS[j % len(PRE_GAS)])
+        if 'storage' in pre:
+            c['storage_limit'] = str(PRE_STORAGE[j % len(PRE_STORAGE)])
     g = OperationGroup(context=ctx, contents=contents)
     args = dict(case.get('args') or {})
-    mode = case['mode']
-    try:
-        res = g.fill(**args) if mode == 'fill' else g.autofill(**args)
-    except Exception as e:
-        return dict(clause=f'{mode}::safety.no_exception', detail=f'{type(e).__name__}: {e}',
-                    wclass=f'{mode} raises {type(e).__name__} ({"+".join(sorted(args)) or "no arguments"})')
-    out = res.contents
+    res = g
+    calls = case['mode'].split('+')
+    for ci, mode in enumerate(calls):
+        stage = mode if len(calls) == 1 else f'{mode} (call {ci + 1} of {case["mode"]})'
+        try:
+            res = res.fill(**args) if mode == 'fill' else res.autofill(**{k: v for k, v in args.items() if k != 'minimal_nanotez_per_gas_unit'})
+        except Exception as e:
+            return dict(clause=f'{mode}::safety.no_exception', detail=f'{stage}: {type(e).__name__}: {e}',
+                        wclass=f'{stage} raises {type(e).__name__} ({"+".join(sorted(args)) or "no arguments"})')
+        r = _judge(case, res.contents, st, mode, stage, args)
+        if r is not None:
+            return r
+    return None
+
+
+def _judge(case, out, st, mode, stage, args):
+    src, kinds = case['src'], case['kinds']
+    extra = ''.join(f', {k} {case[k]}' for k in ('prefill', 'resim') if case.get(k))
     if any(c.get('source') != st.pkh for c in out):
         return dict(clause=f'{mode}::ensures.source_filled', detail=f'sources {[c.get("source") for c in out]}', wclass='source not filled')
-    m = args.get('minimal_nanotez_per_gas_unit')
+    m = args.get('minimal_nanotez_per_gas_unit') if mode == 'fill' else None     # autofill has no such argument: the node default applies
     m_eff = F.NANOTEZ_PER_GAS_UNIT if m is None else m
     need = F.required_nanotez(out, m_eff)
     paid = F.paid_nanotez(out)
@@ -161,13 +194,14 @@ def run_case(case):
         return None
     n = len(out)
     fees = [int(c['fee']) for c in out]
+    special = (f' [{case["mode"]}]' if '+' in case['mode'] else '') + (f' [prefilled {case["prefill"]}]' if case.get('prefill') else '')
     if n >= 5:
         short = F.min_fee_mutez(out, m_eff) - sum(fees)
         return dict(clause=f'{mode}::ensures.mempool_minimum',
-                    detail=(f'{src} source, batch of {n} ({kinds[0]} … {kinds[-1]}), {mode}({", ".join(f"{k}={v}" for k, v in args.items())}): '
+                    detail=(f'{src} source, batch of {n} ({kinds[0]} … {kinds[-1]}), {stage}({", ".join(f"{k}={v}" for k, v in args.items())}){extra}: '
                             f'total fee {sum(fees)} mutez < minimum {F.min_fee_mutez(out, m_eff)} mutez (size {F.signed_size(out)} bytes, '
                             f'gas limits {sorted(set(int(c["gas_limit"]) for c in out))}, fee fields {sorted(set(fees))})'),
-                    wclass=f'{mode}: large batch (>= 5 contents) short by {"1..10" if short <= 10 else "more than 10"} mutez',
+                    wclass=f'{mode}: large batch (>= 5 contents) short by {"1..10" if short <= 10 else "more than 10"} mutez' + special,
                     paid=paid // 1000, need=F.min_fee_mutez(out, m_eff))
     shape = 'single content' if n == 1 else ('batch, fee only on the first content' if all(f == 0 for f in fees[1:]) else 'batch, fees on several contents')
     why = []
@@ -178,10 +212,10 @@ def run_case(case):
     if mode == 'fill' and 'gas_limit' not in args and any(int(c['gas_limit']) > 1040000 for c in out):
         why.append('a default gas limit taken from the node constants exceeds the built-in 1040000 used for the fee')
     return dict(clause=f'{mode}::ensures.mempool_minimum',
-                detail=(f'{src} source, batch {kinds}, {mode}({", ".join(f"{k}={v}" for k, v in args.items())}), node constants {case["const"]}: '
+                detail=(f'{src} source, batch {kinds}, {stage}({", ".join(f"{k}={v}" for k, v in args.items())}), node constants {case["const"]}{extra}: '
                         f'fees {fees} = {sum(fees)} mutez < minimum {F.min_fee_mutez(out, m_eff)} mutez '
                         f'(size {F.signed_size(out)} bytes, gas limits {[int(c["gas_limit"]) for c in out]}, {m_eff} nanotez/gas)'),
-                wclass=f'{mode}: {shape}' + (': ' + '; '.join(why) if why else '') + (f' [{"+".join(sorted(args))}]' if args else ''),
+                wclass=f'{mode}: {shape}' + (': ' + '; '.join(why) if why else '') + (f' [{"+".join(sorted(args))}]' if args else '') + special,
                 paid=paid // 1000, need=F.min_fee_mutez(out, m_eff))
 
 
@@ -193,7 +227,8 @@ def work(cases):
         r = run_case(case)
         n += 1
         key_ = repr((case['mode'], case['src'], len(case['kinds']), tuple(sorted(case.get('args') or {})), case['const'],
-                     tuple(g % 10000 for g in case['gas_list'][:2]) if case.get('gas_list') else None))
+                     tuple(g % 10000 for g in case['gas_list'][:2]) if case.get('gas_list') else None)
+                    + ((case.get('prefill'), case.get('resim')) if case.get('prefill') or case.get('resim') else ()))
         classes[key_] = classes.get(key_, 0) + 1
         if r is not None:
             out.append(dict(r, case=case))
